@@ -466,7 +466,7 @@ Section Run.
       if is_props_call root c then
         match class28 root c with
         | Some GetallOmitsFailed | Some ChangedGetterFails => (dash, dash)
-        | _ => (r sp, c28)
+        | _ => (r (option_map relax_err sp), c28)
         end
       else
         match class26 root c with
@@ -476,7 +476,7 @@ Section Run.
         | None => (r sp, dash)
         end
     else if lbeq mode (B "28") then
-      if is_props_call root c then (r sp, c28)
+      if is_props_call root c then (r (option_map relax_err sp), c28)
       else
         match target_method root c with
         | Some (FStd d0, _) => if lbeq (id_name d0) props_name then (r (option_map relax_err sp), dash) else (dash, dash)
